@@ -1,14 +1,30 @@
 ------------------------------ MODULE HttpApi ------------------------------
-(* The JSON API convention of the oryx http package (C19), as the decision   *)
-(* table of one request:                                                     *)
-(*   Arrive     a GET arrives, with or without a `callback` query parameter  *)
-(*   Respond    the application answers it with one of the library's         *)
-(*              handlers: Data(value) or Error(err) where err is a system    *)
+(* The JSON API convention of the oryx http package (C19): the decision      *)
+(* table of one request, and the life of the handler object that answers     *)
+(* many requests:                                                            *)
+(*   Create     the application makes its answer ONCE: one of the library's  *)
+(*              handlers, Data(value) or Error(err) where err is a system    *)
 (*              error (int code), a complex error (code, message), an        *)
 (*              application error (Code() int), or any other error, which    *)
-(*              may carry its own HTTP status                                *)
+(*              may carry its own HTTP status - either as the http.Handler   *)
+(*              the library returns (form "handler": Data / Error /          *)
+(*              CplxError, registered on a mux) or as a function of its own  *)
+(*              that calls WriteData / WriteError / WriteCplxError (form     *)
+(*              "write"); both are registered once and served many times     *)
+(*   Mutate     the value handed to Data is a reference (map, pointer): the  *)
+(*              application changes what is behind it between two requests;  *)
+(*              the new content may be of any value class, also one that     *)
+(*              cannot be marshalled, or another value of the same class     *)
+(*              (every Mutate makes a new version of the content)            *)
+(*   Arrive     a GET arrives, with or without a `callback` query parameter  *)
+(*   Respond    the handler object answers it                                *)
 (*   ClientRead the client half (ApiRequest) fetches the body and gives its  *)
 (*              verdict                                                      *)
+(*   NextRequest / Finish   the same object waits for the next request, up   *)
+(*              to MaxServes                                                 *)
+(* Every response is a function of the request and of the value behind the   *)
+(* handler AT THE TIME OF THAT REQUEST (ResponseOfCurrentValue): nothing of  *)
+(* an earlier request - its value, its outcome, its callback - survives.     *)
 (* The module is shaped like the code path: Data -> envelope -> JsonHandler  *)
 (* (marshal, then headers, then callback wrapping); Error -> dispatch on the *)
 (* error kind -> JsonHandler or the plain-text answer; a marshal failure in  *)
@@ -30,10 +46,20 @@ CONSTANTS
   Values,      \* value classes [name, k, marshalable, jtype]
   Messages,    \* text classes of error messages
   Servers,     \* configured values of the Server header
+  Forms,       \* how the application holds its answer: subset of {"handler", "write"}
+  MaxServes,   \* requests one handler object answers
   Deviation    \* "none" or the name of a wrong behaviour (non-vacuity runs)
 
-VARIABLES pc, srv, req, app, resp, verdict
-vars == <<pc, srv, req, app, resp, verdict>>
+VARIABLES
+  pc, srv,
+  obj,         \* the handler object: [made: what the application answered when it made it, form]
+  cell,        \* value class now behind the reference handed to Data (NoValue for the error kinds)
+  ver,         \* version of that content: the number of Mutate steps so far
+  req,         \* the request being answered: its callback parameter
+  app,         \* what the application's answer is for this request: obj.made with the value now in cell
+  resp, verdict,
+  hist         \* history: one record [cb, val, ver, resp, verdict] per request served by obj
+vars == <<pc, srv, obj, cell, ver, req, app, resp, verdict, hist>>
 
 Json       == "application/json"
 JavaScript == "application/javascript"
@@ -47,7 +73,8 @@ None    == [kind |-> "none"]
 \* ------------------------------------------------ what the application may answer
 Kinds == {"data", "systemError", "complexError", "appError", "plainError", "plainErrorWithStatus"}
 
-App(kind, code, status, msg, val) == [kind |-> kind, code |-> code, status |-> status, msg |-> msg, val |-> val]
+\* val: the class of the value, ver: which version of the content behind the reference (0: as handed to Data)
+App(kind, code, status, msg, val) == [kind |-> kind, code |-> code, status |-> status, msg |-> msg, val |-> val, ver |-> 0]
 
 AppResponses ==
        {App("data", "0", 0, "-", v) : v \in Values}
@@ -62,11 +89,11 @@ IsCodedKind(a)   == a.kind \in {"systemError", "complexError", "appError"}
 IsPlainKind(a)   == a.kind \in {"plainError", "plainErrorWithStatus"}
 
 \* ------------------------------------------------------------------ body shapes
-Envelope(v)      == [t |-> "envelope", code |-> "0", server |-> Pid, data |-> v, msg |-> "-"]
-CodeOnly(c)      == [t |-> "code", code |-> c, server |-> "-", data |-> NoValue, msg |-> "-"]
-CodeData(c, m)   == [t |-> "codedata", code |-> c, server |-> "-", data |-> NoValue, msg |-> m]
-PlainText(m)     == [t |-> "text", code |-> "-", server |-> "-", data |-> NoValue, msg |-> m]
-Empty            == [t |-> "empty", code |-> "-", server |-> "-", data |-> NoValue, msg |-> "-"]
+Envelope(v, n)   == [t |-> "envelope", code |-> "0", server |-> Pid, data |-> v, ver |-> n, msg |-> "-"]
+CodeOnly(c)      == [t |-> "code", code |-> c, server |-> "-", data |-> NoValue, ver |-> 0, msg |-> "-"]
+CodeData(c, m)   == [t |-> "codedata", code |-> c, server |-> "-", data |-> NoValue, ver |-> 0, msg |-> m]
+PlainText(m)     == [t |-> "text", code |-> "-", server |-> "-", data |-> NoValue, ver |-> 0, msg |-> m]
+Empty            == [t |-> "empty", code |-> "-", server |-> "-", data |-> NoValue, ver |-> 0, msg |-> "-"]
 
 CanMarshal(rv) == rv.t # "envelope" \/ rv.data.marshalable
 
@@ -100,10 +127,10 @@ ErrorHandler(s, r, e) ==
          [status |-> IF e.hasStatus /\ Deviation # "status-not-applied" THEN e.status ELSE 500,
           server |-> s, ctype |-> Text, wrap |-> "", body |-> PlainText(e.msg)]
 
-DataHandler(s, r, v) == JsonHandler(s, r, Envelope(v))
+DataHandler(s, r, v, n) == JsonHandler(s, r, Envelope(v, n))
 
 Handle(s, r, a) ==
-  CASE a.kind = "data"                 -> DataHandler(s, r, a.val)
+  CASE a.kind = "data"                 -> DataHandler(s, r, a.val, a.ver)
     [] a.kind = "systemError"          -> ErrorHandler(s, r, Err("system", a.code, FALSE, 0, "-"))
     [] a.kind = "complexError"         -> ErrorHandler(s, r, Err("complex", a.code, FALSE, 0, a.msg))
     [] a.kind = "appError"             -> ErrorHandler(s, r, Err("app", a.code, FALSE, 0, a.msg))
@@ -129,63 +156,113 @@ ApiVerdict(rs) ==
 ApiCode(rs) == IF BodyIsJsonObject(rs) /\ HasNumericCode(rs) THEN rs.body.code ELSE "-"
 
 \* --------------------------------------------------------------- state machine
-Init == /\ pc = "idle" /\ srv \in Servers
-        /\ req = None /\ app = None /\ resp = None /\ verdict = "-"
+Init == /\ pc = "new" /\ srv \in Servers /\ obj = None /\ cell = NoValue /\ ver = 0
+        /\ req = None /\ app = None /\ resp = None /\ verdict = "-" /\ hist = <<>>
 
-Arrive(cb) == /\ pc = "idle"
+Create(a, f) == /\ pc = "new"
+                /\ obj' = [made |-> a, form |-> f] /\ cell' = a.val /\ pc' = "idle"
+                /\ UNCHANGED <<srv, ver, req, app, resp, verdict, hist>>
+
+\* between two requests (also before the first) the application changes what is behind the reference:
+\* a value of another class or another value of the same class
+Mutate(v) == /\ pc = "idle" /\ obj.made.kind = "data"
+             /\ cell' = v /\ ver' = ver + 1 /\ pc' = "mutated"
+             /\ UNCHANGED <<srv, obj, req, app, resp, verdict, hist>>
+
+Arrive(cb) == /\ pc \in {"idle", "mutated"} /\ Len(hist) < MaxServes
               /\ req' = cb /\ pc' = "arrived"
-              /\ UNCHANGED <<srv, app, resp, verdict>>
+              /\ UNCHANGED <<srv, obj, cell, ver, app, resp, verdict, hist>>
 
-Respond(a) == /\ pc = "arrived"
-              /\ app' = a /\ resp' = Handle(srv, req, a) /\ pc' = "responded"
-              /\ UNCHANGED <<srv, req, verdict>>
+\* the application's answer as it stands now
+Current == [obj.made EXCEPT !.val = cell, !.ver = ver]
+
+Respond == /\ pc = "arrived"
+           /\ app' = Current
+           /\ resp' = IF Deviation = "first-response-cached" /\ obj.form = "handler" /\ Len(hist) > 0
+                      THEN hist[1].resp                \* built at the first request, replayed ever after
+                      ELSE Handle(srv, req, Current)
+           /\ pc' = "responded"
+           /\ UNCHANGED <<srv, obj, cell, ver, req, verdict, hist>>
 
 ClientRead == /\ pc = "responded"
               /\ verdict' = ApiVerdict(resp) /\ pc' = "read"
-              /\ UNCHANGED <<srv, req, app, resp>>
+              /\ hist' = Append(hist, [cb |-> req, val |-> cell, ver |-> ver, resp |-> resp, verdict |-> ApiVerdict(resp)])
+              /\ UNCHANGED <<srv, obj, cell, ver, req, app, resp>>
 
-Next == (\E cb \in Callbacks : Arrive(cb)) \/ (\E a \in AppResponses : Respond(a)) \/ ClientRead
+NextRequest == /\ pc = "read" /\ Len(hist) < MaxServes
+               /\ pc' = "idle" /\ req' = None /\ app' = None /\ resp' = None /\ verdict' = "-"
+               /\ UNCHANGED <<srv, obj, cell, ver, hist>>
+
+Finish == /\ pc = "read" /\ Len(hist) = MaxServes
+          /\ pc' = "done"
+          /\ UNCHANGED <<srv, obj, cell, ver, req, app, resp, verdict, hist>>
+
+Next == \/ \E a \in AppResponses, f \in Forms : Create(a, f)
+        \/ \E v \in Values : Mutate(v)
+        \/ \E cb \in Callbacks : Arrive(cb)
+        \/ Respond \/ ClientRead \/ NextRequest \/ Finish
 Spec == Init /\ [][Next]_vars
 
 \* ------------------------------------------------------------------ properties
-Responded == pc \in {"responded", "read"}
+Responded == pc \in {"responded", "read", "done"}
 
 \* a response *is* a success iff it is 200 with the envelope of code 0
 IsSuccessResp(rs) == rs.status = 200 /\ rs.body.t = "envelope" /\ rs.body.code = "0"
 
+\* The clauses of the property for ONE exchange: server header s, request r, application answer a, response rs.
 \* success iff the application answered data with a marshalable value
-SuccessIff == Responded => (IsSuccessResp(resp) <=> IsSuccessKind(app))
+SuccessIffOf(rs, a) == IsSuccessResp(rs) <=> IsSuccessKind(a)
 
 \* the success answer is the well-formed envelope, wrapped iff a callback was named
-EnvelopeWellFormed ==
-  (Responded /\ IsSuccessKind(app)) =>
-     /\ resp.status = 200 /\ resp.server = srv
-     /\ resp.body = Envelope(app.val)
-     /\ resp.wrap = Cb(req)
-     /\ resp.ctype = (IF Cb(req) = "" THEN Json ELSE JavaScript)
+EnvelopeWellFormedOf(s, r, a, rs) ==
+  IsSuccessKind(a) =>
+     /\ rs.status = 200 /\ rs.server = s
+     /\ rs.body = Envelope(a.val, a.ver)               \* the value as it is now, not an earlier version of it
+     /\ rs.wrap = Cb(r)
+     /\ rs.ctype = (IF Cb(r) = "" THEN Json ELSE JavaScript)
 
 \* errors answer with their own code (in the JSON body) or their own status (default 500)
-ErrorOwnCode ==
-  Responded =>
-     /\ IsCodedKind(app) => (resp.body.t \in {"code", "codedata"} /\ resp.body.code = app.code /\ resp.body.code # "0")
-     /\ app.kind = "plainError" => resp.status = 500
-     /\ app.kind = "plainErrorWithStatus" => resp.status = app.status
+ErrorOwnCodeOf(a, rs) ==
+     /\ IsCodedKind(a) => (rs.body.t \in {"code", "codedata"} /\ rs.body.code = a.code /\ rs.body.code # "0")
+     /\ a.kind = "plainError" => rs.status = 500
+     /\ a.kind = "plainErrorWithStatus" => rs.status = a.status
 
 \* a value that cannot be marshalled yields an error response, never 200 / a partial body
-UnmarshalableIsError ==
-  (Responded /\ app.kind = "data" /\ ~app.val.marshalable) =>
-     /\ resp.status >= 400
-     /\ resp.body.t = "text"
+UnmarshalableIsErrorOf(a, rs) ==
+  (a.kind = "data" /\ ~a.val.marshalable) =>
+     /\ rs.status >= 400
+     /\ rs.body.t = "text"
 
 \* the client never confuses success and failure
-ClientNeverConfuses ==
-  pc = "read" =>
-     /\ verdict = "ok" => IsSuccessKind(app)
-     /\ (IsSuccessKind(app) /\ Cb(req) = "") => verdict = "ok"
-     /\ ~IsSuccessKind(app) => verdict = "error"
+ClientNeverConfusesOf(r, a, vd) ==
+     /\ vd = "ok" => IsSuccessKind(a)
+     /\ (IsSuccessKind(a) /\ Cb(r) = "") => vd = "ok"
+     /\ ~IsSuccessKind(a) => vd = "error"
+
+SuccessIff           == Responded => SuccessIffOf(resp, app)
+EnvelopeWellFormed   == Responded => EnvelopeWellFormedOf(srv, req, app, resp)
+ErrorOwnCode         == Responded => ErrorOwnCodeOf(app, resp)
+UnmarshalableIsError == Responded => UnmarshalableIsErrorOf(app, resp)
+ClientNeverConfuses  == pc \in {"read", "done"} => ClientNeverConfusesOf(req, app, verdict)
+
+\* Every request a handler object ever served was answered by the clauses above for the value that was behind the
+\* object at that request and for that request's callback - whatever it served before.
+AnswerAt(i) == [obj.made EXCEPT !.val = hist[i].val, !.ver = hist[i].ver]
+ResponseOfCurrentValue ==
+  \A i \in DOMAIN hist :
+     LET a == AnswerAt(i)  rs == hist[i].resp  r == hist[i].cb IN
+       /\ SuccessIffOf(rs, a)
+       /\ EnvelopeWellFormedOf(srv, r, a, rs)
+       /\ ErrorOwnCodeOf(a, rs)
+       /\ UnmarshalableIsErrorOf(a, rs)
+       /\ ClientNeverConfusesOf(r, a, hist[i].verdict)
+\* the answer judged at a request is the one for the value behind the object now
+AnswerIsCurrent == Responded => (app = Current /\ (obj.made.kind # "data" => (cell = NoValue /\ ver = 0)))
 
 TypeOk ==
-  /\ pc \in {"idle", "arrived", "responded", "read"}
+  /\ pc \in {"new", "idle", "mutated", "arrived", "responded", "read", "done"}
   /\ verdict \in {"-", "ok", "error"}
+  /\ Len(hist) <= MaxServes /\ ver \in 0..MaxServes
+  /\ pc # "new" => (obj.form \in Forms /\ obj.made \in AppResponses)
   /\ Responded => resp.status \in {200, 500} \cup Statuses
 =============================================================================
